@@ -192,9 +192,16 @@ func genTransport(g *GenCtx, emit func(head string, gos [][]string)) {
 	emit("obj=t", [][]string{{"c.rm"}, {"c.r"}, {"s.acc", "h.rm"}, {"sl:200", "c.c"}, {"sl:250", "s.c"}})                                         // close releases blocked reads
 	emit("obj=t", [][]string{{"c.hs", "c.ds", "c.rm", "c.dz"}, {"s.acc", "h.ds", "h.rm", "h.dp", "h.rm"}, {"sl:300", "c.c"}, {"sl:300", "s.c"}}) // deadlines release blocked reads
 	emit("obj=t", [][]string{{"s.c"}, {"c.hs"}, {"sl:3500", "c.c"}})                                                                             // dead server: handshake timeout
+	// a handshake that fails (dead server, short handshake timeout) while Close / Read / Handshake run
+	for _, d := range []int{38, 40, 42, 44} {
+		emit("obj=t hst=40", [][]string{{"s.c"}, {"c.hs"}, {"sl:20", "c.rm"}, {fmt.Sprintf("sl:%d", d), "c.c"}, {fmt.Sprintf("sl:%d", d+1), "c.rm"}, {fmt.Sprintf("sl:%d", d+2), "c.hs", "c.c"}})
+	}
 	n := 110
 	if g.Thorough() {
 		n = 2500 / g.Parts
+	}
+	if raceTier {
+		n /= 2
 	}
 	for c := 0; c < n; c++ {
 		var gos [][]string
@@ -281,7 +288,11 @@ func (lc *linCase) runTransport() {
 		lc.info = append(lc.info, "info NewServer failed")
 		return
 	}
-	client := transport.NewClient(cEP, sAddr, tClientCfg)
+	ccfg := tClientCfg
+	if ms, err := strconv.Atoi(lc.kv["hst"]); err == nil && ms > 0 {
+		ccfg.HSTimeout = time.Duration(ms) * time.Millisecond
+	}
+	client := transport.NewClient(cEP, sAddr, ccfg)
 
 	var handle *transport.Handle
 	hReady := make(chan struct{})
